@@ -1119,6 +1119,152 @@ package gocql
 //@   loop 0: step forall(k, 0 <= k && k < prev(len(buf.buf)), buf.buf[k] == prev(buf.buf[k]))
 
 // ---------------------------------------------------------------------------
+// policies.go (C11): host selection. roundRobbin returns an iterator (closure) over
+// tiers of hosts; its state is the pair (currentLayer, currentlyObserved). Every call
+// moves that pair strictly forward in lexicographic order (so the sequence is finite
+// and no position is offered twice), returns only hosts that are up, takes the tiers
+// in order, and inside a tier visits index (shift+o) mod size for o = 1..size, which
+// is a bijection (lemma C11.rotation_bijection): every up host is offered exactly once.
+// ---------------------------------------------------------------------------
+
+//@ func (h *HostInfo) State
+//@   props C11 C16
+//@   modifies nothing
+//@   ensures result == h.state
+
+//@ func (h *HostInfo) IsUp
+//@   props C11 C16
+//@   nil_receiver_ok
+//@   modifies nothing
+//@   ensures result == (h != nil && h.state == NodeUp)
+
+//@ func (h *HostInfo) DataCenter
+//@   props C11
+//@   modifies nothing
+//@   ensures same(result, h.dataCenter)
+
+//@ func (h *HostInfo) Rack
+//@   props C11
+//@   modifies nothing
+//@   ensures same(result, h.rack)
+
+// cowHostList: the atomic.Value holds nothing or a non-nil *[]*HostInfo whose entries are non-nil
+// (object invariant: `requires` of every method, re-established by add and remove).
+// atomic.Value is modelled sequentially: writers serialise on c.mu, a reader loads one stored list.
+//@ func (c *cowHostList) get
+//@   props C11 C16
+//@   requires dyn(c.list.v) == nil || (typeis(c.list.v, *[]*HostInfo) && unbox(c.list.v, *[]*HostInfo) != nil)
+//@   modifies nothing
+//@   ensures dyn(c.list.v) == nil ==> len(result) == 0
+//@   ensures dyn(c.list.v) != nil ==> same(result, *unbox(c.list.v, *[]*HostInfo))
+
+// Hosts handed to the policies passed the peer validation (valid connect address), so
+// ConnectAddress does not hit its "no valid connect address" panic: assumption, see DESIGN.md.
+//@ func (h *HostInfo) Equal
+//@   trusted hosts in policy lists have a valid connect address; reads only
+//@   requires host != nil
+//@   modifies nothing
+
+//@ func (h *HostInfo) ConnectAddress
+//@   trusted hosts in policy lists have a valid connect address; reads only
+//@   modifies nothing
+
+//@ func (c *cowHostList) add
+//@   props C11 C16
+//@   requires host != nil
+//@   requires dyn(c.list.v) == nil || (typeis(c.list.v, *[]*HostInfo) && unbox(c.list.v, *[]*HostInfo) != nil)
+//@   requires dyn(c.list.v) != nil ==> forall(i, 0 <= i && i < len(*unbox(c.list.v, *[]*HostInfo)), (*unbox(c.list.v, *[]*HostInfo))[i] != nil)
+//@   modifies c.list
+//@   ensures typeis(c.list.v, *[]*HostInfo) || (!result && dyn(c.list.v) == nil)
+//@   ensures dyn(c.list.v) != nil ==> unbox(c.list.v, *[]*HostInfo) != nil
+//@   ensures dyn(c.list.v) != nil ==> forall(i, 0 <= i && i < len(*unbox(c.list.v, *[]*HostInfo)), (*unbox(c.list.v, *[]*HostInfo))[i] != nil)
+// not added: the published list is the same object as before
+//@   ensures !result ==> same(c.list.v, old(c.list.v)) && dyn(old(c.list.v)) != nil
+// added: the new list is the old one followed by host (copy on write: the old list is in the frame)
+//@   ensures result && dyn(old(c.list.v)) == nil ==> len(*unbox(c.list.v, *[]*HostInfo)) == 1
+//@   ensures result && dyn(old(c.list.v)) != nil ==> len(*unbox(c.list.v, *[]*HostInfo)) == len(old(*unbox(c.list.v, *[]*HostInfo))) + 1
+//@   ensures result ==> (*unbox(c.list.v, *[]*HostInfo))[len(*unbox(c.list.v, *[]*HostInfo))-1] == host
+//@   ensures result && dyn(old(c.list.v)) != nil ==> forall(i, 0 <= i && i < len(old(*unbox(c.list.v, *[]*HostInfo))), (*unbox(c.list.v, *[]*HostInfo))[i] == old((*unbox(c.list.v, *[]*HostInfo))[i]))
+//@   loop 0: invariant 0 <= i && i <= n && n == len(l) && len(newL) == n+1 && fresh(newL)
+//@   loop 0: invariant forall(k, 0 <= k && k < i, newL[k] == l[k])
+
+// remove: copy on write again; one entry shorter when something matched. That the surviving
+// entries are exactly the non-matching ones needs "at most one entry per address" (an invariant
+// over mutable HostInfo addresses, not expressible here): not claimed, see DESIGN.md.
+//@ func (c *cowHostList) remove
+//@   props C11 C16
+//@   requires dyn(c.list.v) == nil || (typeis(c.list.v, *[]*HostInfo) && unbox(c.list.v, *[]*HostInfo) != nil)
+//@   requires dyn(c.list.v) != nil ==> forall(i, 0 <= i && i < len(*unbox(c.list.v, *[]*HostInfo)), (*unbox(c.list.v, *[]*HostInfo))[i] != nil)
+//@   modifies c.list
+//@   ensures dyn(c.list.v) == nil || (typeis(c.list.v, *[]*HostInfo) && unbox(c.list.v, *[]*HostInfo) != nil)
+//@   ensures !result ==> same(c.list.v, old(c.list.v))
+//@   ensures result ==> dyn(old(c.list.v)) != nil && dyn(c.list.v) != nil && len(*unbox(c.list.v, *[]*HostInfo)) == len(old(*unbox(c.list.v, *[]*HostInfo))) - 1
+// every surviving entry comes from the old list, in order, up to the first removed position
+//@   loop 0: invariant 0 <= i && i <= len(l) && size == len(l) && size > 0
+//@   loop 0: invariant len(newL) <= i && cap(newL) == size
+//@   loop 0: invariant fresh(newL)
+//@   loop 0: invariant !found ==> len(newL) == i
+//@   loop 0: invariant found ==> len(newL) < i
+
+// ---- DC-aware policy: a host lives in the local list iff its datacenter is the local one
+//@ func (d *dcAwareRR) IsLocal
+//@   props C11
+//@   requires host != nil
+//@   modifies nothing
+//@   ensures result == (host.dataCenter == d.local)
+
+//@ func (d *dcAwareRR) AddHost
+//@   props C11 C16
+//@   count_calls add
+//@   requires host != nil
+//@   requires dyn(d.localHosts.list.v) == nil || (typeis(d.localHosts.list.v, *[]*HostInfo) && unbox(d.localHosts.list.v, *[]*HostInfo) != nil)
+//@   requires dyn(d.localHosts.list.v) != nil ==> forall(i, 0 <= i && i < len(*unbox(d.localHosts.list.v, *[]*HostInfo)), (*unbox(d.localHosts.list.v, *[]*HostInfo))[i] != nil)
+//@   requires dyn(d.remoteHosts.list.v) == nil || (typeis(d.remoteHosts.list.v, *[]*HostInfo) && unbox(d.remoteHosts.list.v, *[]*HostInfo) != nil)
+//@   requires dyn(d.remoteHosts.list.v) != nil ==> forall(i, 0 <= i && i < len(*unbox(d.remoteHosts.list.v, *[]*HostInfo)), (*unbox(d.remoteHosts.list.v, *[]*HostInfo))[i] != nil)
+//@   modifies d.localHosts, d.remoteHosts
+//@   ensures add_calls == 1
+// the other tier is untouched; a host that was added is the last entry of its own tier
+//@   ensures host.dataCenter == d.local ==> same(d.remoteHosts.list.v, old(d.remoteHosts.list.v))
+//@   ensures host.dataCenter != d.local ==> same(d.localHosts.list.v, old(d.localHosts.list.v))
+//@   ensures host.dataCenter == d.local && add_ret0 ==> (*unbox(d.localHosts.list.v, *[]*HostInfo))[len(*unbox(d.localHosts.list.v, *[]*HostInfo))-1] == host
+//@   ensures host.dataCenter != d.local && add_ret0 ==> (*unbox(d.remoteHosts.list.v, *[]*HostInfo))[len(*unbox(d.remoteHosts.list.v, *[]*HostInfo))-1] == host
+//@   ensures !add_ret0 ==> same(d.localHosts.list.v, old(d.localHosts.list.v)) && same(d.remoteHosts.list.v, old(d.remoteHosts.list.v))
+
+//@ func roundRobbin
+//@   props C11
+//@   requires 0 <= shift && shift <= 1<<62
+
+//@ func roundRobbin$1
+//@   props C11
+//@   count_calls IsUp
+//@   abstract_rem int
+//@   requires 0 <= *shift && *shift <= 1<<62
+// the captured variables are distinct cells
+//@   requires currentLayer != currentlyObserved && currentLayer != shift && currentlyObserved != shift
+//@   requires 0 <= *currentLayer && *currentLayer <= len(*hosts)
+//@   requires *currentLayer < len(*hosts) ==> 0 <= *currentlyObserved && *currentlyObserved <= len((*hosts)[*currentLayer])
+//@   modifies *currentLayer, *currentlyObserved
+// the iterator invariant is re-established
+//@   ensures 0 <= *currentLayer && *currentLayer <= len(*hosts)
+//@   ensures *currentLayer < len(*hosts) ==> 0 <= *currentlyObserved && *currentlyObserved <= len((*hosts)[*currentLayer])
+// exhausted only after the last tier
+//@   ensures result == nil ==> *currentLayer == len(*hosts)
+// a returned host is the up host at the current position of the current tier
+//@   ensures result != nil ==> *currentLayer < len(*hosts) && 1 <= *currentlyObserved && typeis(result, *selectedHost) && IsUp_calls >= 1 && IsUp_ret0
+//@   ensures result != nil ==> same(unbox(result, *selectedHost), (*hosts)[*currentLayer][(*shift + *currentlyObserved) % len((*hosts)[*currentLayer])])
+// strict lexicographic progress of (layer, observed); tiers are never revisited
+//@   ensures result != nil ==> *currentLayer > old(*currentLayer) || (*currentLayer == old(*currentLayer) && *currentlyObserved > old(*currentlyObserved))
+//@   ensures *currentLayer >= old(*currentLayer)
+//@   loop 0: invariant 0 <= *currentLayer && *currentLayer <= len(*hosts) && *currentLayer >= old(*currentLayer)
+//@   loop 0: invariant *currentLayer < len(*hosts) ==> 0 <= *currentlyObserved && *currentlyObserved <= len((*hosts)[*currentLayer])
+//@   loop 0: invariant *currentLayer == old(*currentLayer) ==> *currentlyObserved >= old(*currentlyObserved)
+//@   loop 1: invariant 0 <= *currentLayer && *currentLayer < len(*hosts) && *currentLayer >= old(*currentLayer) && currentLayerSize == len((*hosts)[*currentLayer])
+//@   loop 1: invariant 0 <= *currentlyObserved && *currentlyObserved <= currentLayerSize
+//@   loop 1: invariant *currentLayer == old(*currentLayer) ==> *currentlyObserved >= old(*currentlyObserved)
+// a host is skipped only because it is down
+//@   loop 1: step IsUp_calls == prev(IsUp_calls) + 1 && !IsUp_ret0 && *currentlyObserved == prev(*currentlyObserved) + 1
+
+// ---------------------------------------------------------------------------
 // uuid.go (RFC 4122; oracle in /verif/spec/bv.smt2 blocks uuid, hex)
 // ---------------------------------------------------------------------------
 
